@@ -307,7 +307,14 @@ fn merge_strategy() -> impl Strategy<Value = MergeCase> {
             1 => Just(Vec::new()),
         ]
     };
-    (any::<u8>(), prop_oneof![3 => Just(None), 1 => any::<u8>().prop_map(Some)], az(), az(), 0u8..5).prop_map(|(ea, eb, az_a, az_b, mode)| MergeCase {
+    // a small share of very large sweeps (two full 0.5-degree sweeps and more): size-dependent code paths
+    let big = || prop_oneof![vec(0u16..=720, 500..=1100), vec(any::<u16>(), 500..=1100), (500u16..=1100).prop_map(|n| (1..=n).collect::<Vec<u16>>())];
+    let pair = prop_oneof![
+        400 => (az(), az()),
+        1 => (big(), big()),
+        1 => (big(), az()),
+    ];
+    (any::<u8>(), prop_oneof![3 => Just(None), 1 => any::<u8>().prop_map(Some)], pair, 0u8..5).prop_map(|(ea, eb, (az_a, az_b), mode)| MergeCase {
         elev_a: ea,
         elev_b: eb.unwrap_or(ea),
         az_a,
@@ -388,10 +395,12 @@ pub fn run(ctx: &Ctx, rep: &mut Report) {
                 .class(c.elev_a != c.elev_b, "mismatch")
                 .class(c.az_a.is_empty() || c.az_b.is_empty(), "one-side-empty")
                 .class(dup, "cross-duplicate")
+                .class(c.az_a.len() + c.az_b.len() > 1024, "more-than-1024-radials")
         },
         check_merge,
     );
     rep.require_class("merge", "mismatch", 20);
+    rep.require_class("merge", "more-than-1024-radials", 20);
 }
 
 pub fn replay(sub: &str, case: &Value) -> Check {
